@@ -72,6 +72,42 @@ pub struct World {
   /// ("name@req" as PackageReq prints it): 1 = rejected, 2 = resolves but the dependency graph of a batch
   /// containing it fails, anything else / absent = resolves
   pub npm: Option<BTreeMap<String, u8>>,
+  /// None = builds (and parses) over this world have no resolver
+  pub resolver: Option<ResolverCfg>,
+}
+
+/// What the harness resolver does beyond the default resolution.
+#[derive(Clone, Debug, Default)]
+pub struct ResolverCfg {
+  /// import text -> Some(url) (mapped, as an import map would) | None (the resolver refuses it)
+  pub map: BTreeMap<String, Option<String>>,
+  /// untyped module specifier -> Some(url of its types) | None (resolve_types fails)
+  pub types: BTreeMap<String, Option<String>>,
+  pub jsx_source: Option<String>,
+  pub jsx_types: Option<String>,
+}
+
+impl deno_graph::source::Resolver for ResolverCfg {
+  fn default_jsx_import_source(&self, _referrer: &ModuleSpecifier) -> Option<String> {
+    self.jsx_source.clone()
+  }
+  fn default_jsx_import_source_types(&self, _referrer: &ModuleSpecifier) -> Option<String> {
+    self.jsx_types.clone()
+  }
+  fn resolve(&self, specifier_text: &str, referrer_range: &deno_graph::Range, _kind: ResolutionKind) -> Result<ModuleSpecifier, ResolveError> {
+    match self.map.get(specifier_text) {
+      Some(Some(url)) => Ok(ModuleSpecifier::parse(url).unwrap()),
+      Some(None) => Err(ResolveError::Other(deno_error::JsErrorBox::generic("blocked by the resolver"))),
+      None => Ok(deno_graph::resolve_import(specifier_text, &referrer_range.specifier)?),
+    }
+  }
+  fn resolve_types(&self, specifier: &ModuleSpecifier) -> Result<Option<(ModuleSpecifier, Option<deno_graph::Range>)>, ResolveError> {
+    match self.types.get(specifier.as_str()) {
+      Some(Some(url)) => Ok(Some((ModuleSpecifier::parse(url).unwrap(), None))),
+      Some(None) => Err(ResolveError::Other(deno_error::JsErrorBox::generic("no types"))),
+      None => Ok(None),
+    }
+  }
 }
 
 pub fn render(src: &ModSrc, is_js: bool) -> String {
